@@ -277,3 +277,92 @@ def jobs(tier):
                        desc='accumulate_digits<%s,%s>: any length, ghost Horner fold, loop contract' % (CXX[k], mx)))
         out[-1].ghost = {(r'internal::accumulate_digits<', 1): ACCDS_GHOST}
     return out
+
+
+# ======================================================================
+# scanning rules on an input: match_unsigned, match_and_convert_*, *_rule
+# ======================================================================
+SCAN_PRE = '''
+typedef unsigned __int128 WIDE;
+#define ISDIG(c) ((c) >= '0' && (c) <= '9')
+size_t g_k;                 /* ghost probe index: unconstrained, so a clause proved for it holds for every index */
+const char* g_p0;           /* ghost: cursor at entry */
+WIDE g_h; size_t g_i;       /* ghost Horner fold over the consumed digits, own index */
+#define P0 (g_p0)
+#define NUMERAL_OK(in) ( CONSUMED(in) >= 1 && (g_k < CONSUMED(in) ==> ISDIG(P0[g_k])) \\
+   && (CONSUMED(in) < AVAIL_OLD(in) ==> !ISDIG(P0[CONSUMED(in)])) && (P0[0] == '0' ==> CONSUMED(in) == 1) )
+#define NUMERAL_NONE(in) ( AVAIL_OLD(in) == 0 || !ISDIG(P0[0]) || (P0[0] == '0' && AVAIL_OLD(in) >= 2 && ISDIG(P0[1])) )
+'''
+
+
+def scan_pos(tr):
+    if tr != 'eager':
+        return None
+    return E('(RET && !vf_exc.pending) ==> (BYTE(in) == OLD(BYTE(in)) + CONSUMED(in) && LINE(in) == OLD(LINE(in)) && COL(in) == OLD(COL(in)) + CONSUMED(in))',
+             'RC-POS-DIGITS', ('C06',))
+
+
+def scan_loop_inv(tr, extra=''):
+    inv = ('PTRS_OK(in) && IN_END(in) == __CPROVER_loop_entry(IN_END(in)) && IN_BEGIN(in) == __CPROVER_loop_entry(IN_BEGIN(in))'
+           ' && __CPROVER_same_object(CUR(in), g_p0) && OFF(CUR(in)) >= OFF(__CPROVER_loop_entry(CUR(in))) && OFF(g_p0) <= OFF(CUR(in))'
+           ' && (g_k < OFF(CUR(in)) - OFF(g_p0) ==> ISDIG(g_p0[g_k]))')
+    if tr == 'eager':
+        inv += (' && BYTE(in) == __CPROVER_loop_entry(BYTE(in)) + (OFF(CUR(in)) - OFF(__CPROVER_loop_entry(CUR(in))))'
+                ' && LINE(in) == __CPROVER_loop_entry(LINE(in))'
+                ' && COL(in) == __CPROVER_loop_entry(COL(in)) + (OFF(CUR(in)) - OFF(__CPROVER_loop_entry(CUR(in))))')
+    return inv + extra
+
+
+def match_unsigned_contract(tr):
+    c = rc_leaf(tr, 'lf_crlf', progress=True, pos=False, extra=[
+        E('RET ==> NUMERAL_OK(in)', 'INT-SYNTAX-ACCEPT', ('C15',)),
+        E('!RET ==> NUMERAL_NONE(in)', 'INT-SYNTAX-REJECT', ('C15',)),
+        scan_pos(tr)])
+    c.clauses.insert(1, R('g_p0 == CUR(in) && vf_exc.pending == 0', 'scan-ghost-pre'))
+    return c
+
+
+SCAN_ROOTS = []
+for tr, sfx in (('eager', 'e'), ('lazy', 'l')):
+    SCAN_ROOTS.append(('mu_%s' % sfx, tr, 'internal::match_unsigned( in )', ''))
+    SCAN_ROOTS.append(('urule_%s' % sfx, tr, 'unsigned_rule::match( in )', ''))
+
+
+def tu_scan():
+    s = ''
+    for name, tr, expr, extra in SCAN_ROOTS:
+        s += tu_root(name, INPUT_TYPES[(tr, 'lf_crlf')], expr, extra)
+    return s
+
+
+_tu_base = tu
+
+
+def tu():
+    return _tu_base() + tu_scan()
+
+
+def scan_harness(tr, call, extra_decl=''):
+    return input_harness('vf_' + INPUT_TYPES[(tr, 'lf_crlf')], tr, call,
+                         extra_decl=extra_decl, pre_call='  g_p0 = CUR(&in); vf_exc.pending = 0; g_h = 0; g_i = 0;\n')
+
+
+def scan_jobs(tier):
+    out = []
+    for name, tr, expr, extra in SCAN_ROOTS:
+        con = match_unsigned_contract(tr)
+        j = Job(name, NAME, name, con, ('C15', 'C02', 'C03', 'C06', 'C11'), prelude=prelude(tr) + SCAN_PRE,
+                harness=scan_harness(tr, 'w_ret = $ENTRY(&in)'),
+                loops={(r'internal::match_unsigned<', 1): '__CPROVER_assigns(IT_FIELDS(in))\n__CPROVER_loop_invariant(%s)' % scan_loop_inv(tr)},
+                expect_fail_canary=canaries(),
+                replay={'kind': 'leaf', 'tracking': tr, 'eol': 'lf_crlf', 'defs': ''},
+                desc='%s on memory_input<%s>: numeral syntax 0|[1-9][0-9]*, peek-before-bump, bounds, positions' % (expr, tr))
+        out.append(j)
+    return out
+
+
+_jobs_base = jobs
+
+
+def jobs(tier):
+    return _jobs_base(tier) + scan_jobs(tier)
